@@ -655,7 +655,18 @@ pub fn build_pool(shipped_text: String, shipped_table: Vec<Entry>, n_rendered: u
             table = extended_table(&mut r, every, 2099);
             tclass = "farfuture";
             far = true;
-            match (i / 16) % 5 {
+            match (i / 16) % 6 {
+                5 => {
+                    // timestamps of every width: five, nine, ten (just) and eleven digits (from
+                    // November 2216 on a count of seconds since 1900 no longer fits ten), offsets
+                    // of one, two and three digits. The format bounds neither column.
+                    table = vec![(86_400, 1), (999_999_999, 2), (1_000_000_000, 3)];
+                    table.extend(real_table());
+                    table.push((ntp_seconds_of_date(2217, 1, 1), 99));
+                    table.push((ntp_seconds_of_date(2300, 7, 1), 100));
+                    table.push((ntp_seconds_of_date(2301, 1, 1), 101));
+                    tclass = "digitwidths";
+                }
                 4 => {
                     // a long pause (the 2022 CGPM resolution suspends leap seconds): the next
                     // entry comes more than 2^31 s (68 years) after its predecessor
